@@ -158,3 +158,32 @@ func TestC20_RegressF12f_EvalEqEmptyProduct(t *testing.T) {
 		rep.Case("C20_Regress", P.Name()+" F12f", true, "F12f")
 	}
 }
+
+// F12g: a Canonical/BitReverse coefficient vector converted on a larger domain was zero-padded at the end of
+// the bit-reversed vector (i.e. at the wrong degrees); only Canonical/Regular objects grew correctly.
+func TestC20_RegressF12g_GrowCanonicalBitReverse(t *testing.T) {
+	forIops(t, func(t *testing.T, c *cx) {
+		for _, size := range []int{1, 2, 8} {
+			sh, _ := regressPoly(c, size)
+			for _, rho := range []int{2, 4} {
+				for _, op := range []int{opGrowLagrange, opGrowCoset, opGrowCanonical} {
+					for _, f := range allForms[:2] {
+						m := newModel(sh, f, size)
+						for m.n < size*rho/2 {
+							m.apply(t, opGrowCanonical, 0, size*rho)
+						}
+						if !m.apply(t, op, 0, size*rho) || m.n != size*rho {
+							t.Fatalf("harness: grow step not applied")
+						}
+						m.checkShape(t)
+						m.checkEval(t, bi(12345), 0, "random")
+						m.checkEval(t, c.dom(m.n, nil).ref.Point(3), 1, "domain")
+						m.checkEval(t, c.dom(m.n, nil).ref.CosetPoint(5), -1, "coset")
+						m.checkCoeffs(t, 0, indices(m.n, 0))
+						rep.Case("C20_Regress", fmt.Sprintf("%s F12g %s size=%d rho=%d %s", c.I.Name(), f, size, rho, opNames[op]), true, "F12g")
+					}
+				}
+			}
+		}
+	})
+}
